@@ -480,16 +480,20 @@ pub enum Parse {
 
 /// Deterministic LR driver over conflict-free tables.
 pub fn drive(cfg: &Cfg, start: usize, t: &Tables, input: &[u16]) -> Parse {
+    drive_bounded(cfg, start, t, input, 400_000)
+}
+
+/// `per_token` bounds the number of reductions between two shifts. For a grammar without useless symbols
+/// conflict-free LR tables cannot loop; with unproductive nonterminals the LR construction itself can contain
+/// an epsilon-reduction cycle (see DESIGN.md §6, finding `lr-epsilon-loop`), which this bound detects.
+pub fn drive_bounded(cfg: &Cfg, start: usize, t: &Tables, input: &[u16], per_token: usize) -> Parse {
     let mut states = vec![start];
     let mut nodes: Vec<Tree> = vec![];
     let mut i = 0usize;
     let mut steps = 0usize;
-    // conflict-free LR tables cannot loop; the bound only protects against broken tables (wide rules over
-    // nullable nonterminals legitimately need thousands of reductions per token)
-    let bound = 2_000_000 + (input.len() + 1) * 4096 * (cfg.rules.len() + 2);
     loop {
         steps += 1;
-        if steps > bound {
+        if steps > per_token {
             return Parse::Diverged;
         }
         let q = if i < input.len() { input[i] as usize } else { cfg.n_t };
@@ -502,6 +506,7 @@ pub fn drive(cfg: &Cfg, start: usize, t: &Tables, input: &[u16]) -> Parse {
                 nodes.push(Tree::Leaf { term: input[i], pos: i });
                 states.push(to);
                 i += 1;
+                steps = 0;
             }
             Act::Reduce(r) => {
                 let n = cfg.rules[r].rhs.len();
